@@ -39,6 +39,7 @@ class V:
     rules: List[str] = field(default_factory=list)  # a violated obligation must carry one of these rules
     note: str = ""
     count: int = 1  # which occurrence (1-based); 0 = all
+    extra: List[tuple] = field(default_factory=list)  # further (file, old, new) edits of the same variant (e.g. an import, a module-level table)
 
 
 def _ws(s: str) -> str:
@@ -584,7 +585,7 @@ def run(prop: str, seed: int, root: str, coverage_out: dict, jobs: int = 16, onl
     for v in vs:
         special = {"<unparse>": "unparse", "<rename-locals>": "rename", "<flip-comparisons>": "flip", "<invert-ifelse>": "invert", "<hoist-conditions>": "hoist", "<extract-helpers>": "extract", "<expand-augassign>": "augexp", "<len-as-condition>": "lencond", "<fstring-to-concat>": "fconcat", "<loops-to-all>": "toall", "<comprehension-to-loop>": "comploop"}.get(v.old)
         files = v.file.split(",") if special else [v.file]
-        tasks.append((v.vid, v.kind, prop, v.rules, root, [(f, v.old, v.new, v.count, special) for f in files]))
+        tasks.append((v.vid, v.kind, prop, v.rules, root, [(f, v.old, v.new, v.count, special) for f in files] + [(f2, o2, n2, 1, None) for f2, o2, n2 in v.extra]))
     results = []
     seed_tasks = [(f"seed:{name}", prop, root, pp) for name, pp in seeded_for(prop)] if only is None else []
     if tasks or seed_tasks:
